@@ -69,18 +69,19 @@ def make_plane(action, **kw):
     import lentil
     import warnings
     kind, name = action.split('_', 1)
+    akey = 'amp' if kw.pop('alias', False) else 'amplitude'        # the documented short spelling of the amplitude keyword
     if kw.pop('segmented', False) and (kind == 'Mul' or name in ('Plane', 'Pupil', 'Image')):
         # the same plane with its aperture split into two segments (a 3-D mask): types and refusals do not depend on the mask
         seg = np.zeros((2, 3, 3)); seg[0][:, :2] = 1; seg[1][:, 2:] = 1
         kw['mask'] = seg
     if kind == 'Mul':
-        return lentil.Plane(amplitude=A.copy(), ptype=name, **kw)
+        return lentil.Plane(ptype=name, **{akey: A.copy()}, **kw)
     if name == 'Plane':
-        return lentil.Plane(amplitude=A.copy(), **kw)
+        return lentil.Plane(**{akey: A.copy()}, **kw)
     if name == 'Pupil':
-        return lentil.Pupil(amplitude=A.copy(), focal_length=2.0, **kw)     # differs from the wavefront's: a refused product must not adopt it
+        return lentil.Pupil(focal_length=2.0, **{akey: A.copy()}, **kw)     # differs from the wavefront's: a refused product must not adopt it
     if name == 'Image':
-        return lentil.Image(amplitude=A.copy(), **kw)
+        return lentil.Image(**{akey: A.copy()}, **kw)
     if name == 'Tilt':
         return lentil.Tilt(x=0.0, y=0.0, **kw)
     if name == 'TiltAsPupil':
@@ -128,7 +129,7 @@ def plane_for(action, reuse):
     if not reuse:
         return make_plane(action)
     if action not in _REUSED:
-        _REUSED[action] = make_plane(action, segmented=True)      # the reused-object paths are also the segmented-plane paths
+        _REUSED[action] = make_plane(action, segmented=True, alias=True)      # the reused-object paths are also the segmented-plane paths, built with amp=
     return _REUSED[action]
 
 
